@@ -71,6 +71,7 @@ Definition pobserve := pobserve_m false.
 Definition enc_stage (st : stage) : list Z :=
   match st with
   | StDrop h => 1 :: enc_om h
+  | StAfter c => 6 :: enc_om c
   | StMerge q => 2 :: enc_msgs q
   | StFwd s c => 3 :: enc_msgs s ++ enc_om c
   | StPullID id c => 4 :: id :: enc_om c
